@@ -7,9 +7,21 @@ THEOREMS: dict[str, list[str]] = {
         "Rbacx.C02.c02_first_applicable",
         "Rbacx.C02.c02_none_applicable",
     ],
+    "C15": [
+        "Rbacx.C15.c15_inv",
+        "Rbacx.C15.c15_refines_map",
+        "Rbacx.C15.c15_sound_cache",
+        "Rbacx.C15.c15_get_latest",
+        "Rbacx.C15.c15_no_deadline",
+        "Rbacx.C15.c15_evict_only_lru",
+        "Rbacx.C15.c15_lru_exact_no_ttl",
+        "Rbacx.C15.c15_trace_ok",
+        "Rbacx.C15.c15_atomic_ops",
+        "Rbacx.C15.c15_atomic_step_is_model_step",
+    ],
 }
 
-PROPERTY_IMPORTS = ["Rbacx.Properties.C02"]
+PROPERTY_IMPORTS = ["Rbacx.Properties.C02", "Rbacx.Properties.C15"]
 
 
 def audit_source() -> str:
